@@ -1342,11 +1342,21 @@ func c02scenarios() []*scenario {
 func runC02(t *testing.T, prop string, props map[string]bool) {
 	r := enumx.New(t, prop)
 	defer r.Finish()
+	onlyHonest := props["C04u"]
 	// own the runtime's dice: map iteration order is pinned (and enumerated as a scenario dimension in the thorough tier)
 	runtime.VerifSetSelMode(1)
 	defer runtime.VerifSetSelMode(0)
 	defer runtime.VerifSetMapRot(false, 0)
 	scs := c02scenarios()
+	if onlyHonest {
+		var keep []*scenario
+		for _, sc := range scs {
+			if len(sc.byz) == 0 {
+				keep = append(keep, sc)
+			}
+		}
+		scs = keep
+	}
 	if r.ReplayPath != "" {
 		b, _ := os.ReadFile(r.ReplayPath)
 		fmt.Printf("replay file (trace is re-derived by running the scenario's search until the recorded violation):\n%s\n", b)
